@@ -31,7 +31,7 @@ STEP = {
 
 
 class Path:
-    __slots__ = ("choices", "log", "ret", "calls", "writes", "flags")
+    __slots__ = ("choices", "log", "ret", "calls", "writes", "flags", "_lidx")
 
     def __init__(self, interp, o):
         self.choices = o.st.choices
@@ -40,8 +40,27 @@ class Path:
         self.flags = o.st.flags
         self.calls = [e for e in o.st.log if e[0] == "call"]
         self.writes = [e for e in o.st.log if e[0] in ("write", "write-elem", "write-unknown-pointer")]
+        self._lidx = None
 
     # --- helpers
+    def label_index(self):
+        """result label -> ascending log positions of the calls that produced it"""
+        if self._lidx is None:
+            d = {}
+            for i, e in enumerate(self.log):
+                if e[0] == "call" and len(e) > 4:
+                    d.setdefault(e[4], []).append(i)
+            self._lidx = d
+        return self._lidx
+
+    def args(self, e):
+        """argument trees of a logged call, labels resolved at the call's own position"""
+        try:
+            at = self.log.index(e)
+        except ValueError:
+            at = None
+        return expr_of(self, e[2], 0, at)
+
     def choice(self, regex):
         r = re.compile(regex)
         for n, v in self.choices:
@@ -199,22 +218,43 @@ def explore_fn(prog, fn_path, self_label="self", step_only=(), extra_models=(), 
     return paths, info
 
 
-def expr_of(pa, v, depth=0):
+def expr_of(pa, v, depth=0, at=None):
     """expression tree of an abstract value: results of logged calls are expanded into
-    (callee short name, arg trees...) using the effect log of the path."""
+    (callee short name, arg trees...) using the effect log of the path.  A label is produced again on every loop
+    iteration: it is resolved to the latest call carrying it before log position `at` (default: the end of the path,
+    which is right for the returned value; pass the position of the use for values used inside a loop)."""
     if depth > 12:
         return v
     if isinstance(v, tuple):
         if v and v[0] == "&" and len(v) == 2:
-            return expr_of(pa, v[1], depth + 1)
-        return tuple(expr_of(pa, x, depth + 1) for x in v)
+            return expr_of(pa, v[1], depth + 1, at)
+        return tuple(expr_of(pa, x, depth + 1, at) for x in v)
     if isinstance(v, str) and (v.startswith("top:ret:") or v.startswith("sym:ret:")):
         lab = v[4:]
-        base = lab
-        suffix = ""
-        for e in pa.log:
-            if e[0] == "call" and len(e) > 4 and (lab == e[4] or lab.startswith(e[4] + ".")):
-                suffix = lab[len(e[4]):]
-                node = (short(e[1]),) + tuple(expr_of(pa, a, depth + 1) for a in e[2])
-                return node if not suffix else (node, suffix)
+        idx = pa.label_index()
+        best = None
+        for key in _label_prefixes(lab):
+            for i in idx.get(key, ()):
+                if at is not None and i >= at:
+                    break
+                if best is None or i > best[0]:
+                    best = (i, key)
+        if best is not None:
+            i, key = best
+            e = pa.log[i]
+            suffix = lab[len(key):]
+            node = (short(e[1]),) + tuple(expr_of(pa, a, depth + 1, i) for a in e[2])
+            return node if not suffix else (node, suffix)
     return v
+
+
+def _label_prefixes(lab):
+    """the label itself and every prefix that ends before a '.' (projections of a call result)"""
+    out = [lab]
+    pos = len(lab)
+    while True:
+        pos = lab.rfind(".", 0, pos)
+        if pos <= 0:
+            break
+        out.append(lab[:pos])
+    return out
